@@ -112,6 +112,8 @@ TxChoices(id) ==
       [] Family = "jail"    -> Unjails(id) \cup UNION {Edits(n, id) : n \in JailedNodes}
                                \cup {x \in NewStakes(id) : x.amount = 5000000}
       [] Family = "unstake" -> Unstakes(id) \cup {x \in NewStakes(id) : x.amount \in {2000000, 5000000}} \cup Donations(id)
+                               \* stake messages for a node that has begun unstaking (refused: status)
+                               \cup UNION {Edits(n, id) : n \in {m \in DOMAIN s.val : s.val[m].status = UNSTAKING}}
       [] Family = "edit"    -> NewStakes(id) \cup UNION {Edits(n, id) : n \in Nodes} \cup Params(id)
                                \cup {UnstakeTx("a3", "a3", "a3", id)}
 
